@@ -70,4 +70,34 @@ CONFIG = {
         "quick": {"checks": 300, "shards": 16},
         "thorough": {"checks": 4000, "shards": 16, "timeout": 7200},
     },
+    "C07": {
+        "rule": "k in [1,5] scripted sources replaying generated action words over {Sell,Hold,Buy} (length 0-40, densities from sparse to dense), positive closing "
+                "walks, stop-loss fraction in [0,1) in 64ths, a permutation of the sources and a decorator nesting of depth 0-3 over {Inverse, NoLoss, StopLoss}; "
+                "MACD-RSI on generated OHLCV with generated thresholds. Oracle: slice re-statement of each doc comment over denormalised streams (And/Or/Majority "
+                "vote, Split rule, Inverse swap, No-Loss / Stop-Loss state machines composed for nestings), plus relations that do not mention the rule: permutation "
+                "invariance, And(s)=Or(s)=Majority(s)=Denormalize(s), Inverse(Inverse)=id, And => Or, and the history invariants of the statement (every emitted "
+                "Sell above its purchase close; Sell at the first close at or below the stop level; Buy/Sell alternate). Non-trivial: a word set with both a "
+                "conflict position and a unanimous one, or a suppressed No-Loss Sell, or a triggered stop. Distinct = (words, closes, fraction, nesting).",
+        "technique": "property-based testing (rapid) with scripted stub strategies against slice models and metamorphic relations",
+        "level_text": "Combinators and decorators are driven by scripted stub strategies replaying arbitrary generated action words, so the full space of vote patterns (ties, conflicts, leading Holds, repeats) is sampled, and compared with slice models plus model-free relations and trading-history invariants.",
+        "level_note": "Sources emit exactly one action per snapshot (C05); unequal source lengths are outside this check. MACD-RSI uses the real sub-strategies at their default periods.",
+        "assumptions": ["closing prices are positive; stop-loss percentage is a fraction in [0,1) as the code's closing*(1-Percentage) presupposes"],
+        "gomaxprocs": [1, 2],
+        "quick": {"checks": 1500, "shards": 8},
+        "thorough": {"checks": 40000, "shards": 16, "timeout": 7200},
+    },
+    "C08": {
+        "rule": "action words over {Sell,Hold,Buy} (10% of cases also carry illegal values -2, 2, 3) of length 0-60 with varying density x positive value series "
+                "(dyadic walk, two-decimal, or wide range 2^-10..2^20), lengths unequal in 25% of cases. Oracle: a (cash, units) slice simulator of the statement; "
+                "entries = min(len); outcome >= -1; exactly 0 before the first Buy; buy-and-hold = v_i/v_0 - 1 within 4 ulp; Outcome(v,a) bitwise equal to "
+                "Outcome(v, Normalize(a)); normalised streams alternate Buy/Sell from Buy; Normalize(Denormalize(x)) = x on normalised x; Normalize/Denormalize/"
+                "CountTransactions equal their slice models; ComputeWithOutcome = (Compute, Outcome). Non-trivial: >= 2 completed round trips and >= 1 redundant action.",
+        "technique": "property-based testing (rapid) against a portfolio state-machine model plus metamorphic relations",
+        "level_text": "The accounting state machine is compared with an independent (cash, units) simulator on generated action histories and value series, and the statement's invariants (floor, zero before first Buy, buy-and-hold identity, invariance under removal of redundant actions, alternation) are checked directly.",
+        "level_note": "Values are positive finite floats in [2^-10, 2^20]; the simulator comparison uses a relative tolerance of 1e-12, the redundancy relation is bitwise.",
+        "assumptions": ["values are positive"],
+        "gomaxprocs": [1, 2],
+        "quick": {"checks": 3000, "shards": 8},
+        "thorough": {"checks": 80000, "shards": 16, "timeout": 7200},
+    },
 }
